@@ -693,6 +693,10 @@ class EnumGen:
                 '            "clone" => { let c = slots[slot].clone(); slots.push(c); out.push("cloned".to_string()); }',
                 '            "skip" => out.push(item_repr(slots[slot].clone().skip(n).next())),',
                 '            "stepby" => { let mut it = slots[slot].clone().step_by(n); let x1 = item_repr(it.next()); let x2 = item_repr(it.next()); let x3 = item_repr(it.next()); out.push(format!("{},{},{}", x1, x2, x3)); }',
+                '            "fold" => { let s = slots[slot].clone().fold(Vec::new(), |mut a, v| { a.push(item_repr(Some(v))); a }); out.push(format!("fold={}", s.join("+"))); }',
+                '            "rfold" => { let s = slots[slot].clone().rfold(Vec::new(), |mut a, v| { a.push(item_repr(Some(v))); a }); out.push(format!("rfold={}", s.join("+"))); }',
+                '            "count" => out.push(format!("count={}", slots[slot].clone().count())),',
+                '            "last" => out.push(item_repr(slots[slot].clone().last())),',
                 '            _ => out.push("bad-tok".to_string()),',
                 '        }',
                 '    }',
